@@ -82,6 +82,12 @@ class ChargingBase(VehicleState):
         elif not mechatronics:
             msg = f"vehicle {vehicle.id} has invalid mechatronics id; context: {context}"
             return SimulationStateError(msg), None
+        elif base.geoid != vehicle.geoid:
+            # a vehicle can only charge at a base it is parked at
+            log.warning(
+                f"ChargingBase.enter(): vehicle {vehicle.id} not at same location as {base.id}"
+            )
+            return None, None
         elif not base.membership.grant_access_to_membership(vehicle.membership):
             msg = f"vehicle doesn't have access to base; context: {context}"
             return SimulationStateError(msg), None
